@@ -14,6 +14,9 @@ import FeatModel.Lemmas.C02XClone
 import FeatModel.Lemmas.C02Abort
 import FeatModel.Lemmas.C02Valid
 import FeatModel.Lemmas.C02Misc
+import FeatModel.Lemmas.C02BandRect
+import FeatModel.Lemmas.C02FailX
+import FeatModel.Lemmas.C02AnyChain
 /-!
 # C02 — conversion, cloning, transposition and permutation preserve the matrix (property theorems)
 
@@ -434,10 +437,88 @@ theorem C02.widen_back_id (x : Rat) (h : reprBits 24 x = true) (m : Mat Rat) (a 
     (narrow32 a = a ↔ fits32 a = true) ∧ fits32 (narrow32 a) = true :=
   ⟨C02L.widen_back_id x h, C02L.dtw_eq_dtx m, C02L.narrow32_eq_iff a, C02L.narrow32_fits a⟩
 
+/-! ### CSR <-> banded on rectangular shapes -/
+
+/-- the band of entry `(i, j)` is `j − i + rows − 1` for EVERY shape — the column count never enters — and on a non-square
+    matrix the `cols − 1` variant names a different band at every entry -/
+theorem C02.bandOff_rectangular {α : Type} (A : Csr α) (i j : Nat) (hi : i < A.rows) :
+    A.bandOff i j + i + 1 = j + A.rows ∧
+    (A.rows ≠ A.cols → ∀ o, o + i + 1 = j + A.cols → A.bandOff i j ≠ o) :=
+  ⟨C02L.bandOff_eq A i j hi, fun hne o ho => C02L.bandOff_ne_cols_variant A i j o hi hne ho⟩
+
+/-- the offsets of `SparseMatrixBanded::convert(CSR)` for any rows, cols: strictly increasing, EXACTLY the bands
+    `o = j − i + rows − 1` of the stored entries, all inside the matrix (`o + 2 ≤ rows + cols`) -/
+theorem C02.csr_toBanded_offsets {α : Type} [Zero α] (A : Csr α) (h : A.wf = true) (hnz : 0 < A.usedElements) :
+    ∃ B, A.toBanded = some B ∧ B.rows = A.rows ∧ B.cols = A.cols ∧
+      B.offsets.toList.Pairwise (· < ·) ∧
+      (∀ o, o ∈ B.offsets.toList ↔
+        ∃ i k, i < A.rows ∧ A.rowBegin i ≤ k ∧ k < A.rowEnd i ∧ o + i + 1 = A.colInd.getD k 0 + A.rows) ∧
+      (∀ o, o ∈ B.offsets.toList → o + 2 ≤ A.rows + A.cols) :=
+  C02L.csr_toBanded_offsets A h hnz
+
+/-- both round trips are the identity on the matrix for tall, wide and square shapes: CSR -> banded -> CSR for every valid
+    matrix with entries, banded -> CSR -> banded for every well-formed banded matrix with a band position inside the matrix -/
+theorem C02.banded_round_trips {α : Type} [Zero α] [Add α] (h0 : (0 : α) + 0 = 0) :
+    (∀ A : Csr α, A.valid = true → 0 < A.usedElements →
+      ∃ B, A.toBanded = some B ∧ B.toCsr.rows = A.rows ∧ B.toCsr.cols = A.cols ∧ B.toCsr.valid = true ∧
+        ∀ i j, i < A.rows → j < A.cols → B.toCsr.entry i j = A.entry i j) ∧
+    (∀ B : Banded α, B.wf = true → B.usedElements ≠ 0 →
+      ∃ B', B.toCsr.toBanded = some B' ∧ B'.rows = B.rows ∧ B'.cols = B.cols ∧ B'.wf = true ∧
+        ∀ i j, i < B.rows → j < B.cols → B'.entry i j = B.entry i j) :=
+  ⟨fun A h hnz => C02L.csr_banded_csr h0 A h hnz, fun B h hnz => C02L.banded_csr_banded' h0 B h hnz⟩
+
+/-- kernel-evaluated rectangular witnesses: a tall 3x2 and a wide 2x3 matrix get the bands {0, 2} resp. {1, 3}, not the
+    `cols − 1` bands -/
+theorem C02.toBanded_rectangular_examples :
+    (Csr.toBanded (⟨3, 2, #[0,1,2,3], #[0,1,0], #[5,7,9]⟩ : Csr Nat)).map
+      (fun B => (B.rows, B.cols, B.offsets, B.val)) = some (3, 2, #[0, 2], #[0, 0, 9, 5, 7, 0]) ∧
+    (Csr.toBanded (⟨2, 3, #[0,2,3], #[0,2,1], #[5,7,9]⟩ : Csr Nat)).map
+      (fun B => (B.rows, B.cols, B.offsets, B.val)) = some (2, 3, #[1, 3], #[5, 9, 7, 0]) ∧
+    (Csr.toBanded (⟨2, 3, #[0,2,3], #[0,2,1], #[5,7,9]⟩ : Csr Nat)).map (·.offsets) ≠ some #[2, 4] :=
+  ⟨C02L.toBanded_tall_example, C02L.toBanded_wide_example, C02L.toBanded_wide_not_cols⟩
+
+/-! ### failure classes of the aliased-target and the extension operations -/
+
+/-- THE ABORT SET of the aliased / pre-existing-target operations: the documented self-clone assertion, and the conversion of
+    an entry-free operand (open findings D10: CSCR -> CSR, D7: CSR -> banded) -/
+theorem C02.stepAlias_abort_iff {α : Type} [Zero α] (fill : α) (m : Mat α) (a : AOp) :
+    m.stepAlias fill a = .abort ↔
+      (∃ md, a = .clones md) ∨
+      (∃ k B, a = .convt k .csr ∧ m = .cscr B ∧ (k = 0 ∨ k = 1 ∨ k = 3) ∧ B.usedElements = 0) ∨
+      (∃ k A, a = .convt k .banded ∧ m = .csr A ∧ (k = 0 ∨ k = 1 ∨ k = 3) ∧ A.usedElements = 0) :=
+  C02L.stepAlias_abort_iff fill m a
+
+/-- THE ABORT and CRASH SETS of the extension operations (as printed by the driver): only a block permutation of the wrong
+    size aborts; only the graph rebuild of an entry-free CSR matrix with rows crashes (open finding D5) -/
+theorem C02.stepX_fail_iff {α : Type} [Zero α] (round : α → α) (m : Mat α) (x : XOp) :
+    (m.stepX round x = .abort ↔
+      ∃ A p q, x = .bperm p q ∧ m = .bcsr A ∧ ¬(p.size = 0 ∧ q.size = 0) ∧ (p.size ≠ A.rows ∨ q.size ≠ A.cols)) ∧
+    (m.crashesX x = true ↔ ∃ A, x = .graphz ∧ m = .csr A ∧ A.usedElements = 0 ∧ 0 < A.rows) :=
+  ⟨C02L.stepX_abort_iff round m x, C02L.crashesX_iff m x⟩
+
+/-! ### one chain theorem over all three operation families -/
+
+/-- Any finite chain mixing the plain operations (`Op`), the aliased / pre-existing-target calls (`AOp`; the chain continues
+    with the target) and the extension operations (`XOp`: layout / graph rebuilds = the zero matrix of the same shape,
+    index-type round trips under `sizeFit`, `transpose_inplace`, cross-type clones of the same data type), with a block
+    permutation (`bperm`, announced block shape checked against the container) at any place: if it runs through and the side
+    conditions hold along the run (`anyChainOkB`), the result is valid, has the textbook dimensions and represents the textbook
+    matrix.  Value-rounding steps (`dtx`, `dtw`, `xclone` with another data type) are excluded by `anyChainOkB`. -/
+theorem C02.anychain_spec {α : Type} [Zero α] [Add α] (h0 : (0 : α) + 0 = 0) (fill : α) (round : α → α)
+    (as : List (C02L.AnyOp × Nat × Nat)) (m m' : Mat α) (hv : m.valid = true)
+    (hok : C02L.anyChainOkB fill round as m ⟨m.rows, m.cols, m.entry⟩)
+    (hrun : C02L.anyRun fill round (as.map Prod.fst) m = some m') :
+    m'.valid = true ∧
+    m'.rows = (C02L.anySemRunB as ⟨m.rows, m.cols, m.entry⟩).rows ∧
+    m'.cols = (C02L.anySemRunB as ⟨m.rows, m.cols, m.entry⟩).cols ∧
+    ∀ i j, i < m'.rows → j < m'.cols → m'.entry i j = (C02L.anySemRunB as ⟨m.rows, m.cols, m.entry⟩).f i j :=
+  C02L.anychain_spec_b h0 fill round as m m' hv hok hrun
+
 /-!
 ### Covered by the correspondence run only (no theorem here)
-* the failure classes of the aliased-target and extension operations (`convt`, `graphz`, BCSR `perm`: the same
-  D5 / D7 / D10 classes, judged by the oracle, not classified by a theorem);
+* chains containing a value-rounding step (`dt`, `dtw`, cross-type clone through `double`): each such step is covered by its
+  own theorems (`C02.roundDt_exact`, `C02.narrow_eq_iff`), but `entry` of a rounded container is `0 + round v`, not
+  `round (0 + v)`, so they are not part of `C02.anychain_spec`;
 * the effect of the data-type round trip on values that are not float-representable (the model `roundDt` is compared
   with the real code on every generated value; only its fixed points are characterised by a theorem), exponent
   range / denormals, and index values ≥ 2^32 (not allocatable);
